@@ -783,6 +783,25 @@ def matrix():
                 f = fstr(regex=rx, case=ca, strip=st, mn=None, mx=4)
                 for x in ["", "ab", "AB", "Ab", " ab ", "ab\n", "abc1", "aab", "ba", "b", "abcde", None]:
                     add(f, x)
+    # patterns are re.match: anchored at the start only.  Patterns / values on which search, match and fullmatch differ
+    for rx in ("abc", "^abc", "abc$", "abc\\Z", "a|bc", "x*", "(?m)^b", "b$", "(?s)a.c", "[0-9]"):
+        for st, ca in ((None, None), (True, None), (None, "upper")):
+            f = fstr(regex=rx, case=ca, strip=st)
+            for x in ["abc", "xabc", "abcx", "abc\n", "x\nabc", "\nabc", "bc", "xbc", "a", "", "b", "x\nb", "a\nc", "ABC", " abc ", "x1", "1x"]:
+                add(f, x)
+    for k, rx, vals in (("host", "srv", ["srv1", "my-srv", "SRV", "srv", "x.srv.y", "1.2.3.4"]),
+                        ("host", "[0-9]+$", ["h1", "1h", "1.2.3.4", "a.1"]),
+                        ("ipv4", "1\\.", ["1.2.3.4", "21.2.3.4", "2.1.3.4", "11.1.1.1"]),
+                        ("ipv4", "4$", ["1.2.3.4", "4.3.2.1", "1.2.3.44"]),
+                        ("net", "10\\.", ["10.0.0.0/8", "110.0.0.0/8", "1.10.0.0/16", "10.1.2.3"]),
+                        ("net", "/8", ["10.0.0.0/8", "8.0.0.0/8", "10.0.0.0/16"])):
+        for x in vals + [None, ""]:
+            add(fstr(k, regex=rx), x)
+            add({"k": "list", "req": False, "item": fstr(k, regex=rx)}, [x, vals[0]])
+            add({"k": "dict", "req": False, "kf": fstr(regex="k"), "vf": fstr(k, regex=rx)}, {"k": x, "xk": vals[0]})
+    for fd in ({"k": "loglevel", "req": False, "regex": "info|err"}, {"k": "loglevel", "req": False, "regex": "(?i)e", "levels": ["e1", "xe", "E2"]}):
+        for x in ["info", "error", "xinfo", " INFO ", "debug", "e1", "xe", "E2"]:
+            add(fd, x)
     for fd in ({"k": "loglevel", "req": False}, {"k": "loglevel", "req": True}, {"k": "loglevel", "req": False, "levels": ["lo", "HI"]},
                {"k": "loglevel", "req": False, "case": "upper"}, {"k": "loglevel", "req": False, "strip": "d"},
                {"k": "appmode", "req": False}, {"k": "appmode", "req": False, "modes": ["a", "b_1"]}):
